@@ -222,6 +222,7 @@ func runC15(o *Out) {
 		}
 	}
 	c15Embedded(o)
+	c15EmbeddedGenerated(o)
 }
 
 func jsonKeyRaw(k string) string {
@@ -336,15 +337,6 @@ func c15Embedded(o *Out) {
 				ws, _ := stdjson.Marshal(w)
 				o.count("embedded_cases", 1)
 				if (gerr != nil) != (werr != nil) || (gerr == nil && !bytes.Equal(gs, ws)) {
-					if ti == 2 || ti == 3 || ti == 5 {
-						// a name present at two embedding depths: the case-insensitive
-						// match of a key that is not an exact name goes astray
-						exact := map[string]bool{"ID": true, "Extra": true, "M": true, "Z": true}
-						if !exact[k] || strings.Contains(doc, strings.ToLower(k)+`":`) && strings.ToLower(k) != k {
-							o.known("ShadowedNameFold", fmt.Sprintf("type %d doc %s", ti, doc))
-							continue
-						}
-					}
 					o.violation("C15", "embedded-field resolution differs from encoding/json (decode)", map[string]string{"type": fmt.Sprint(ti), "doc": doc, "got": string(gs), "want": string(ws), "gerr": fmt.Sprint(gerr), "werr": fmt.Sprint(werr)})
 				}
 			}
